@@ -339,9 +339,10 @@ def run_projections(ctx, n_exprs):
                 tex = e
                 try:
                     if form == 'generator':
-                        q = eval('select((e.id, %s) for e in E)' % s, G)
+                        # the expression the decompiler hands to the translator (e.g. `not (not x)` arrives as `x`), computed BEFORE the query is built
                         try: tex = Q.expr_of_ast(decompile(eval('((e.id, %s) for e in E)' % s, G))[0].elt.elts[1])
                         except Exception: tex = None
+                        q = eval('select((e.id, %s) for e in E)' % s, G)
                     else:
                         q = select('(e.id, %s) for e in E' % s, G)
                     real = {'ok': Q.norm_ast(q._translator.expr_columns[1])}
@@ -1251,8 +1252,8 @@ def run(ctx):
         ('distinct', lambda: run_distinct(ctx, ctx.scale(3, 30))),
         ('schema2', lambda: run_schema2(ctx, ctx.scale(5, 60))),
         ('projections', lambda: run_projections(ctx, ctx.scale(60, 800))),
-        ('fragment', lambda: run_fragment(ctx, 'frag', ctx.scale(240, 3000), 4)),
-        ('extended', lambda: run_fragment(ctx, 'ext', ctx.scale(150, 2000), 4)),
+        ('fragment', lambda: run_fragment(ctx, 'frag', ctx.scale(240, 2400), 4)),
+        ('extended', lambda: run_fragment(ctx, 'ext', ctx.scale(150, 1500), 4)),
     ]
     cpu = {}
     for name, f in steps:
